@@ -1061,6 +1061,7 @@ func init() { register("C12", checkC12) }
 func checkC12(c *Ctx) {
 	r := c.RNG
 	res := c.Res
+	res.ASCIIModel = true
 	res.Rule = "both flag packages (sources/flag, sources/pflag), NewSetWithArgs + Flags.VisitAll + one Set.Value per Set. Config types: random reflect.StructOf types (depth <= 3, value and pointer structs, field names from a vocabulary with known word lists, " +
 		"dials tags in snake/camel/kebab/upper case on any level, dialsflag / dialspflag tags incl. \"-\", on struct-typed fields too) and one declared type (embedded struct, for dials.Config[T]); leaves: bool, string, every integer width incl. uintptr, float32/64, complex64/128, " +
 		"time.Duration, time.Time, a TextUnmarshaler, user-defined named scalars (uint8, string, int, bool, float64; rarely named complex), []string, every integer slice, map[string]string, map[string][]string, map[string]struct{}, user pointers, plus three unsupported kinds. " +
@@ -1401,7 +1402,11 @@ func c12Case(c *Ctx, r *RNG, res *Result, pk string, idx int) {
 	if len(parts) != 3 {
 		cs["request"] = req
 		res.Add(Finding{Kind: "disagreement", What: "flag source: the model rejected the request", Case: cs, Model: rep})
-		return
+		if !caseTypeNonASCII(cs) {
+			return
+		}
+		// a non-ASCII field name: outside the ASCII case-conversion model, the documentation oracle below still applies
+		parts = []string{"ood", "", "ood"}
 	}
 	modelStatus, modelRegs, modelRes := strings.TrimSpace(parts[0]), strings.Fields(parts[1]), strings.TrimSpace(parts[2])
 	if strings.HasPrefix(modelRes, "panic") {
